@@ -868,3 +868,420 @@ pub(crate) fn optimize_record(pre: Vec<String>, post: Vec<String>) {
 pub(crate) fn chunk_wire(c: &Chunk) -> Vec<String> {
     bc_chunk_wire(c)
 }
+
+// ---------------------------------------------------------------------------------------------
+// C07 phase 2 (compiler model, harness bin c07c): everything `Template::new` derives from the
+// parser output, without the optimisation pass, together with the AST it was derived from.
+// `cw_*` are copies of the `aw_*` AST printers above with ONE difference: `cw_kwargs` prints a
+// kwargs map in its HashMap ITERATION order (the order `Compiler::compile_kwargs` will emit them
+// in; `iter()` and `into_iter()` of the same table, and of a clone of it, walk the buckets in the
+// same order) instead of sorted by name.
+
+fn cw_kwargs(k: &crate::HashMap<String, crate::parsing::ast::Expression>, out: &mut String) {
+    out.push_str(&format!(" K{}", k.len()));
+    for (n, e) in k.iter() {
+        aw_name(n, out);
+        cw_expr(e, out);
+    }
+}
+
+fn cw_opt_expr(e: &Option<crate::parsing::ast::Expression>, out: &mut String) {
+    match e {
+        None => out.push_str(" O0"),
+        Some(e) => {
+            out.push_str(" O1");
+            cw_expr(e, out)
+        }
+    }
+}
+
+fn cw_map_entries(es: &[crate::parsing::ast::MapEntry], out: &mut String) {
+    use crate::parsing::ast::MapEntry;
+    out.push_str(&format!(" Map{}", es.len()));
+    for e in es {
+        match e {
+            MapEntry::KeyValue { key, value } => {
+                out.push_str(" KV ");
+                aw_value(&key.as_value(), out);
+                cw_expr(value, out);
+            }
+            MapEntry::Spread(e) => {
+                out.push_str(" Sp");
+                cw_expr(e, out);
+            }
+        }
+    }
+}
+
+/// every piece starts with a space
+fn cw_expr(e: &crate::parsing::ast::Expression, out: &mut String) {
+    use crate::parsing::ast::{ArrayEntry, Expression as E, UnaryOperator};
+    match e {
+        E::Const(c) => {
+            out.push_str(" C ");
+            aw_value(c.node(), out);
+        }
+        E::Array(a) => {
+            out.push_str(&format!(" Arr{}", a.items.len()));
+            for it in &a.items {
+                match it {
+                    ArrayEntry::Item(e) => {
+                        out.push_str(" I");
+                        cw_expr(e, out)
+                    }
+                    ArrayEntry::Spread(e) => {
+                        out.push_str(" Sp");
+                        cw_expr(e, out)
+                    }
+                }
+            }
+        }
+        E::Map(m) => cw_map_entries(&m.entries, out),
+        E::Var(v) => {
+            out.push_str(" V:");
+            out.push_str(&aw_hex(&v.name));
+        }
+        E::GetAttr(g) => {
+            out.push_str(&format!(" GA{}:{}", aw_flag(g.optional), aw_hex(&g.name)));
+            cw_expr(&g.expr, out);
+        }
+        E::GetItem(g) => {
+            out.push_str(&format!(" GI{}", aw_flag(g.optional)));
+            cw_expr(&g.expr, out);
+            cw_expr(&g.sub_expr, out);
+        }
+        E::Slice(s) => {
+            out.push_str(&format!(" SL{}", aw_flag(s.optional)));
+            cw_expr(&s.expr, out);
+            cw_opt_expr(&s.start, out);
+            cw_opt_expr(&s.end, out);
+            cw_opt_expr(&s.step, out);
+        }
+        E::Filter(f) => {
+            out.push_str(&format!(" Fil:{}", aw_hex(&f.name)));
+            cw_expr(&f.expr, out);
+            cw_kwargs(&f.kwargs, out);
+        }
+        E::Test(f) => {
+            out.push_str(&format!(" Tst:{}", aw_hex(&f.name)));
+            cw_expr(&f.expr, out);
+            cw_kwargs(&f.kwargs, out);
+        }
+        E::Ternary(t) => {
+            out.push_str(" Ter");
+            cw_expr(&t.expr, out);
+            cw_expr(&t.true_expr, out);
+            cw_expr(&t.false_expr, out);
+        }
+        E::ListComprehension(l) => {
+            out.push_str(" LC");
+            cw_expr(&l.expr, out);
+            aw_opt_name(&l.key, out);
+            aw_name(&l.value, out);
+            cw_expr(&l.target, out);
+            cw_opt_expr(&l.condition, out);
+        }
+        E::ComponentCall(c) => {
+            out.push_str(&format!(" CC{}:{}", aw_flag(c.self_closing), aw_hex(&c.name)));
+            cw_map_entries(&c.kwargs, out);
+            cw_nodes(&c.body, out);
+        }
+        E::FunctionCall(f) => {
+            out.push_str(&format!(" Fn:{}", aw_hex(&f.name)));
+            cw_kwargs(&f.kwargs, out);
+        }
+        E::UnaryOperation(u) => {
+            out.push_str(match u.op {
+                UnaryOperator::Not => " Not",
+                UnaryOperator::Minus => " Neg",
+            });
+            cw_expr(&u.expr, out);
+        }
+        E::BinaryOperation(b) => {
+            out.push_str(&format!(" Bin:{:?}", b.op));
+            cw_expr(&b.left, out);
+            cw_expr(&b.right, out);
+        }
+    }
+}
+
+fn cw_nodes(ns: &[Node], out: &mut String) {
+    out.push_str(&format!(" Ns{}", ns.len()));
+    for n in ns {
+        match n {
+            Node::Content(s) => {
+                out.push_str(" Content:");
+                out.push_str(&aw_hex(s));
+            }
+            Node::Expression(e) => {
+                out.push_str(" Expr");
+                cw_expr(e, out);
+            }
+            Node::Set(s) => {
+                out.push_str(&format!(" Set{}:{}", aw_flag(s.global), aw_hex(&s.name)));
+                cw_expr(&s.value, out);
+            }
+            Node::BlockSet(s) => {
+                out.push_str(&format!(
+                    " BSet{}:{} Fs{}",
+                    aw_flag(s.global),
+                    aw_hex(&s.name),
+                    s.filters.len()
+                ));
+                for f in &s.filters {
+                    cw_expr(f, out);
+                }
+                cw_nodes(&s.body, out);
+            }
+            Node::Include(i) => {
+                out.push_str(" Inc:");
+                out.push_str(&aw_hex(i.name.node()));
+            }
+            Node::Block(b) => {
+                out.push_str(" Blk:");
+                out.push_str(&aw_hex(b.name.node()));
+                cw_nodes(&b.body, out);
+            }
+            Node::ForLoop(f) => {
+                out.push_str(" For");
+                aw_opt_name(&f.key, out);
+                aw_name(&f.value, out);
+                cw_expr(&f.target, out);
+                cw_nodes(&f.body, out);
+                cw_nodes(&f.else_body, out);
+            }
+            Node::Break => out.push_str(" Brk"),
+            Node::Continue => out.push_str(" Cnt"),
+            Node::If(i) => {
+                out.push_str(" If");
+                cw_expr(&i.expr, out);
+                cw_nodes(&i.body, out);
+                cw_nodes(&i.false_body, out);
+            }
+            Node::FilterSection(f) => {
+                out.push_str(" FS:");
+                out.push_str(&aw_hex(f.name.node()));
+                cw_kwargs(&f.kwargs, out);
+                cw_nodes(&f.body, out);
+            }
+        }
+    }
+}
+
+fn cw_components(cs: &[crate::parsing::ast::ComponentDefinition], out: &mut String) {
+    out.push_str(&format!(" Cs{}", cs.len()));
+    for c in cs {
+        out.push_str(&format!(" Comp:{} Args{}", aw_hex(&c.name), c.kwargs.len()));
+        for (n, a) in &c.kwargs {
+            aw_name(n, out);
+            match a.typ {
+                None => out.push_str(" O0"),
+                Some(t) => out.push_str(&format!(" O1 T:{}", t.as_str())),
+            }
+            match &a.default {
+                None => out.push_str(" O0"),
+                Some(v) => {
+                    out.push_str(" O1 ");
+                    aw_value(v, out)
+                }
+            }
+        }
+        aw_opt_name(&c.rest_param_name, out);
+        out.push_str(&format!(" Meta{}", c.metadata.len()));
+        for (n, v) in &c.metadata {
+            aw_name(n, out);
+            out.push(' ');
+            aw_value(v, out);
+        }
+        cw_nodes(&c.body, out);
+    }
+}
+
+/// What `compile_stage_wire` returns
+pub struct CompileStage {
+    /// `T ostr(parent) nodes components` (AstWire form), kwargs in compile order
+    pub template_wire: String,
+    /// `main`, `block:<name>` (sorted), `component:<name>` (sorted): listings before the
+    /// optimisation pass, in the token form of `raw_chunks_wire` except that the operand of
+    /// `LoadConst` is the hex of the value wire form (`aw_value`) instead of the hex of its Debug text
+    pub chunks: Vec<(String, Vec<String>)>,
+    /// `filter`, `test`, `function`, `include`, `component` (merged over the body and every
+    /// component definition as `Template::new` does) and `topblock` (`block_name_spans`): sorted names
+    pub tables: Vec<(String, Vec<String>)>,
+}
+
+fn cw_chunk_wire(c: &Chunk) -> Vec<String> {
+    (0..c.len())
+        .filter_map(|i| c.get(i))
+        .map(|(instr, spans)| match instr {
+            crate::parsing::Instruction::LoadConst(v) => {
+                let mut s = String::new();
+                aw_value(v, &mut s);
+                let spans: Vec<String> = spans.iter().map(bc_span).collect();
+                format!("LoadConst:{}@{}", aw_hex(&s), spans.join(";"))
+            }
+            _ => bc_instr_wire(instr, spans),
+        })
+        .collect()
+}
+
+/// Mirror of `Template::new` (template.rs) up to, and without, the calls of `Chunk::optimize`:
+/// parse, compile the body with one `Compiler`, compile every component body with a fresh one and
+/// merge its call tables (its blocks are dropped, as there).
+pub fn compile_stage_wire(
+    name: &str,
+    src: &str,
+    delimiters: Delimiters,
+) -> Result<CompileStage, crate::Error> {
+    use std::collections::{BTreeMap, BTreeSet};
+    let out = Parser::new(name, src, delimiters).parse()?;
+    let mut template_wire = String::from("T");
+    aw_opt_name(&out.parent, &mut template_wire);
+    cw_nodes(&out.nodes, &mut template_wire);
+    cw_components(&out.component_definitions, &mut template_wire);
+
+    let mut body_compiler = Compiler::new(name);
+    body_compiler.compile(out.nodes);
+    let mut chunks = vec![("main".to_string(), cw_chunk_wire(&body_compiler.chunk))];
+    let blocks: BTreeMap<&String, &Chunk> = body_compiler.blocks.iter().collect();
+    for (n, c) in blocks {
+        chunks.push((format!("block:{n}"), cw_chunk_wire(c)));
+    }
+    let keys = |m: &crate::HashMap<String, Vec<crate::Span>>| -> BTreeSet<String> {
+        m.keys().cloned().collect()
+    };
+    let mut filter = keys(&body_compiler.filter_calls);
+    let mut test = keys(&body_compiler.test_calls);
+    let mut function = keys(&body_compiler.function_calls);
+    let mut include = keys(&body_compiler.include_calls);
+    let mut component = keys(&body_compiler.component_calls);
+    let topblock: BTreeSet<String> = body_compiler.block_name_spans.keys().cloned().collect();
+    let mut comps: BTreeMap<String, Vec<String>> = BTreeMap::new();
+    for def in out.component_definitions {
+        let mut cc = Compiler::new(name);
+        cc.compile(def.body.clone());
+        filter.extend(keys(&cc.filter_calls));
+        test.extend(keys(&cc.test_calls));
+        function.extend(keys(&cc.function_calls));
+        include.extend(keys(&cc.include_calls));
+        component.extend(keys(&cc.component_calls));
+        comps.insert(def.name.clone(), cw_chunk_wire(&cc.chunk));
+    }
+    for (n, c) in comps {
+        chunks.push((format!("component:{n}"), c));
+    }
+    let v = |s: BTreeSet<String>| s.into_iter().collect::<Vec<String>>();
+    Ok(CompileStage {
+        template_wire,
+        chunks,
+        tables: vec![
+            ("filter".to_string(), v(filter)),
+            ("test".to_string(), v(test)),
+            ("function".to_string(), v(function)),
+            ("include".to_string(), v(include)),
+            ("component".to_string(), v(component)),
+            ("topblock".to_string(), v(topblock)),
+        ],
+    })
+}
+
+// ---------------------------------------------------------------------------------------------
+// p2_vm (value-level VM model): everything `VirtualMachine::interpret` reads of a `Tera` instance,
+// in one whitespace separated token stream read by /verif/lean/Driver/Vm.lean:
+//   T<k> (n:<name> <0|1 autoescape> P<n> n:<parent>* <chunk> L<n> (n:<block> K<n> <chunk>*)* C<n> (n:<name> <def> <chunk>)*)*
+//   GC<n> (n:<name> <def> <chunk>)*  F<n> n:<filter>*  TS<n> n:<test>*  FN<n> n:<function>*
+//   chunk := CH n:<chunk.name> I<n> <Kind:arg@spans>*   (as `stored_chunks_wire`, except that the payload of
+//            `LoadConst` is the hex of the value in the wire syntax of `aw_value`)
+//   def   := D A<n> (n:<arg> O0|O1 T:<type> O0|O1 <value>)* O0|O1 n:<rest>
+fn vmw_chunk(c: &Chunk, out: &mut String) {
+    use crate::parsing::Instruction as I;
+    out.push_str(" CH");
+    aw_name(&c.name, out);
+    out.push_str(&format!(" I{}", c.len()));
+    for (instr, spans) in (0..c.len()).filter_map(|i| c.get(i)) {
+        out.push(' ');
+        match instr {
+            I::LoadConst(v) => {
+                let mut w = String::new();
+                aw_value(v, &mut w);
+                let spans: Vec<String> = spans.iter().map(bc_span).collect();
+                out.push_str(&format!("LoadConst:{}@{}", bc_hex(&w), spans.join(";")));
+            }
+            other => out.push_str(&bc_instr_wire(other, spans)),
+        }
+    }
+}
+
+fn vmw_def(d: &crate::parsing::ast::ComponentDefinition, out: &mut String) {
+    out.push_str(&format!(" D A{}", d.kwargs.len()));
+    for (n, a) in &d.kwargs {
+        aw_name(n, out);
+        match a.typ {
+            None => out.push_str(" O0"),
+            Some(t) => out.push_str(&format!(" O1 T:{}", t.as_str())),
+        }
+        match &a.default {
+            None => out.push_str(" O0"),
+            Some(v) => {
+                out.push_str(" O1 ");
+                aw_value(v, out)
+            }
+        }
+    }
+    aw_opt_name(&d.rest_param_name, out);
+}
+
+fn vmw_components(
+    cs: &crate::HashMap<String, (crate::parsing::ast::ComponentDefinition, Chunk)>,
+    tag: &str,
+    out: &mut String,
+) {
+    let mut comps: Vec<_> = cs.iter().collect();
+    comps.sort_by(|a, b| a.0.cmp(b.0));
+    out.push_str(&format!(" {tag}{}", comps.len()));
+    for (n, (d, c)) in comps {
+        aw_name(n, out);
+        vmw_def(d, out);
+        vmw_chunk(c, out);
+    }
+}
+
+/// (p2_vm) The environment of the VM: every template with its stored (optimised) main chunk,
+/// autoescape flag, parents, block lineage (the chunks themselves) and component table, the
+/// instance-wide component table, and the names of the registered filters, tests and functions.
+pub fn vm_env_wire(tera: &Tera) -> String {
+    let mut out = String::new();
+    let mut names: Vec<&String> = tera.templates.keys().collect();
+    names.sort();
+    out.push_str(&format!("T{}", names.len()));
+    for name in names {
+        let tpl = &tera.templates[name];
+        aw_name(name, &mut out);
+        out.push_str(&format!(" {}", aw_flag(tpl.autoescape_enabled)));
+        out.push_str(&format!(" P{}", tpl.parents.len()));
+        for p in &tpl.parents {
+            aw_name(p, &mut out);
+        }
+        vmw_chunk(&tpl.chunk, &mut out);
+        let mut blocks: Vec<_> = tpl.block_lineage.iter().collect();
+        blocks.sort_by(|a, b| a.0.cmp(b.0));
+        out.push_str(&format!(" L{}", blocks.len()));
+        for (b, lineage) in blocks {
+            aw_name(b, &mut out);
+            out.push_str(&format!(" K{}", lineage.len()));
+            for c in lineage {
+                vmw_chunk(c, &mut out);
+            }
+        }
+        vmw_components(&tpl.components, "C", &mut out);
+    }
+    vmw_components(&tera.components, "GC", &mut out);
+    let (f, t, g) = registered_builtins(tera);
+    for (tag, l) in [("F", f), ("TS", t), ("FN", g)] {
+        out.push_str(&format!(" {tag}{}", l.len()));
+        for n in l {
+            aw_name(&n, &mut out);
+        }
+    }
+    out
+}
